@@ -94,6 +94,26 @@ fn overlap_run(s: &Searcher, cl: usize, hay: &[u8], sp: (usize, usize), an: bool
            "out":out,"res":res,"full":steps.len() >= limit})
 }
 
+/// a whole non-overlapping iteration (standard semantics: every search stops at its match, so the
+/// next one starts where the last transition was made) recorded as ONE run
+fn iter_run(s: &Searcher, cl: usize, hay: &[u8], sp: (usize, usize)) -> Value {
+    let limit = 8 * hay.len() + 64;
+    aho_corasick::verif::record_steps(limit);
+    let g = guarded(|| s.try_iter(Input::new(hay).span(sp.0..sp.1)));
+    let steps = aho_corasick::verif::take_steps();
+    let (out, res) = match g {
+        Ok(Ok(v)) => ("ok".to_string(), json!(v.iter().map(crate::calls::m2v).collect::<Vec<_>>())),
+        Ok(Err(e)) => ("err".to_string(), json!(e.to_string())),
+        Err(p) => ("panic".to_string(), json!(p)),
+    };
+    let ops: Vec<Value> = steps
+        .iter()
+        .map(|e| if e[0] == 1 { json!(["T", e[1]]) } else { json!(["Q", e[1], e[2], e[3], e[4], e[5]]) })
+        .collect();
+    json!({"ev":"run","mode":"iter","c":cl,"hay":hay,"s":sp.0,"e":sp.1,"an":false,"early":false,"ops":ops,
+           "out":out,"res":res,"full":steps.len() >= limit})
+}
+
 pub fn run(out_prefix: &str, shards: usize, seed: u64, scale: usize, mks: &[&'static str]) -> (usize, usize) {
     let mut out = Out::create(out_prefix, shards);
     let mut rg = gen::rng(seed, 0x57E9_0001);
@@ -140,6 +160,10 @@ pub fn run(out_prefix: &str, shards: usize, seed: u64, scale: usize, mks: &[&'st
                                 nev += 1;
                             }
                         }
+                        if supported(&c, false) {
+                            out.put(shard, &iter_run(&s, cl, h, sp));
+                            nev += 1;
+                        }
                     }
                 }
             }
@@ -172,6 +196,10 @@ pub fn run(out_prefix: &str, shards: usize, seed: u64, scale: usize, mks: &[&'st
                             out.put(shard, &overlap_run(&s, cl, &h, sp, an2));
                             nev += 1;
                         }
+                    }
+                    if supported(&c, false) {
+                        out.put(shard, &iter_run(&s, cl, &h, sp));
+                        nev += 1;
                     }
                 }
             }
